@@ -156,6 +156,22 @@ macro_rules! api_common {
                 ("Keypair::roundtrip", 1) => { let b = unhex(a[0])?; let kp = api::Keypair::from_bytes(&b); ok(hex(&kp.to_bytes())) }
                 ("SecretKey::roundtrip", 1) => { let b = unhex(a[0])?; let k = api::SecretKey::from_bytes(&b); ok(hex(&k.to_bytes())) }
                 ("PublicKey::roundtrip", 1) => { let b = unhex(a[0])?; let k = api::PublicKey::from_bytes(&b); ok(hex(&k.to_bytes())) }
+                // every length 0..=max: which byte strings does from_bytes accept (not panic on)?  answer: ok <accepted lengths | ->
+                ("Keypair::accepted_lengths", 1) | ("SecretKey::accepted_lengths", 1) | ("PublicKey::accepted_lengths", 1) => {
+                    let max: usize = a[0].parse().ok()?;
+                    let mut acc: Vec<String> = Vec::new();
+                    let buf: Vec<u8> = (0..max).map(|i| (i as u32).wrapping_mul(2654435761).to_le_bytes()[1]).collect();
+                    for n in 0..=max {
+                        let b = &buf[..n];
+                        let r = std::panic::catch_unwind(std::panic::AssertUnwindSafe(|| {
+                            if f.starts_with("Keypair") { let _ = api::Keypair::from_bytes(b); }
+                            else if f.starts_with("SecretKey") { let _ = api::SecretKey::from_bytes(b); }
+                            else { let _ = api::PublicKey::from_bytes(b); }
+                        }));
+                        if r.is_ok() { acc.push(n.to_string()); }
+                    }
+                    ok(if acc.is_empty() { "-".to_string() } else { acc.join(",") })
+                }
                 _ => return None,
             })
         }
@@ -214,6 +230,24 @@ macro_rules! api_mldsa {
                     let pk = unhex(a[0])?; let msg = unhex(a[1])?; let sig = unhex(a[2])?; let ctx = opt_bytes(a[3])?;
                     let k = api::PublicKey::from_bytes(&pk);
                     ok(k.verify(&msg, &sig, ctx.as_deref()).to_string())
+                }
+                // C10: several deterministic calls on ONE key object (state kept inside a container would show here)
+                // SecretKey::sign_reuse sk msg1 ctx1 msg2 ctx2 -> the two signatures
+                ("SecretKey::sign_reuse", 5) => {
+                    let sk = unhex(a[0])?; let m1 = unhex(a[1])?; let c1 = opt_bytes(a[2])?; let m2 = unhex(a[3])?; let c2 = opt_bytes(a[4])?;
+                    let k = api::SecretKey::from_bytes(&sk);
+                    let s1 = k.sign(&m1, c1.as_deref(), false);
+                    let s2 = k.sign(&m2, c2.as_deref(), false);
+                    ok(format!("{} {}", fmt_sig(s1.as_ref().map(|x| &x[..])), fmt_sig(s2.as_ref().map(|x| &x[..]))))
+                }
+                // PublicKey::verify_reuse pk msg1 sig1 ctx1 msg2 sig2 ctx2 -> the two decisions
+                ("PublicKey::verify_reuse", 7) => {
+                    let pk = unhex(a[0])?; let m1 = unhex(a[1])?; let g1 = unhex(a[2])?; let c1 = opt_bytes(a[3])?;
+                    let m2 = unhex(a[4])?; let g2 = unhex(a[5])?; let c2 = opt_bytes(a[6])?;
+                    let k = api::PublicKey::from_bytes(&pk);
+                    let b1 = k.verify(&m1, &g1, c1.as_deref());
+                    let b2 = k.verify(&m2, &g2, c2.as_deref());
+                    ok(format!("{} {}", b1, b2))
                 }
                 ("PublicKey::prehash_verify", 6) => {
                     let pk = unhex(a[0])?; let msg = unhex(a[1])?; let sig = unhex(a[2])?; let ctx = opt_bytes(a[3])?; let p = ph(a[4])?;
